@@ -3,6 +3,7 @@
 # Credits to Alexander Shorin:
 # https://github.com/kxepal/python-astm
 
+import copy
 import datetime
 import decimal
 import inspect
@@ -259,7 +260,9 @@ class ComponentField(Field):
     """
     def __init__(self, mapping, name=None, default=None):
         self.mapping = mapping
-        default = default or mapping()
+        # NOTE: use the mapping class as (callable) default to get a fresh
+        #       component for every record instead of one shared instance
+        default = default or mapping
         super(ComponentField, self).__init__(name, default)
 
     def _get_value(self, value):
@@ -291,7 +294,9 @@ class RepeatedComponentField(Field):
             assert isinstance(field, type) and issubclass(field, Mapping)
             self.field = ComponentField(field)
         default = default or []
-        super(RepeatedComponentField, self).__init__(name, default)
+        # NOTE: callable default to never hand out the declared list itself
+        super(RepeatedComponentField, self).__init__(
+            name, lambda: copy.deepcopy(default))
 
     class Proxy(list):
         def __init__(self, seq, field):
